@@ -95,6 +95,7 @@ Out4 == {<<"success", "none">>, <<"error", "exc">>, <<"failure", "det">>, <<"uxs
 Out2 == {<<"success", "det">>, <<"failure", "exc">>}
 Out1 == {<<"success", "none">>}
 TagOps4 == {<<{"a"}, {}>>, <<{"b"}, {}>>, <<{}, {"a"}>>, <<{"b"}, {"a"}>>}
+TagOps3 == {<<{"a"}, {}>>, <<{}, {"a"}>>, <<{"b"}, {"a"}>>}
 TagOps2 == {<<{"a"}, {}>>, <<{"b"}, {"a"}>>}
 TagOps8 == {<<n, g>> : n \in SUBSET {"a", "b"}, g \in SUBSET {"a", "b"}} \ {<<{}, {}>>}
 TagOpsAll == {p \in TagOps8 : p[1] \cap p[2] = {}}
